@@ -16,6 +16,8 @@ type Env struct {
 	st    *State
 	old   *State
 	entry *State // state at loop entry, for entry(e)
+	heads map[int]*State // postconditions: state at the most recent arrival at the header of loop K, for athead(K, e)
+	headAny func(k int) *State // call sites: athead(K, e) of a callee denotes an intermediate state of the callee the caller cannot name: an arbitrary state (one per call and K)
 	vars  map[string]Val
 	pkg   *types.Package
 	held  func(st *State, lockAddr string) string
@@ -115,6 +117,17 @@ func (env *Env) resolveType(te TypeExpr) types.Type {
 	}
 	efail("unknown type %s", n)
 	return nil
+}
+
+// ghostType resolves the declared type of a ghost field / ghost global in the package that declares it (a contract of
+// another package may mention the ghost state, e.g. queue contracts reading list.LinkedList.nodes).
+func (env *Env) ghostType(g *GhostField) types.Type {
+	if p := env.vc.prog.typesPkgByName(g.Pkg); p != nil && p != env.pkg {
+		n := *env
+		n.pkg = p
+		return n.resolveType(g.Type)
+	}
+	return env.resolveType(g.Type)
 }
 
 func isUntypedLit(e Expr) bool {
@@ -310,7 +323,7 @@ func (env *Env) evalIdent(name string, hint types.Type) Val {
 	}
 	// ghost global
 	if g := vc.prog.ghostGlobalIn(name, env.specPkg()); g != nil {
-		t := env.resolveType(g.Type)
+		t := env.ghostType(g)
 		return vc.readGlobal(env.st, "G:ghost."+g.Pkg+"."+name, t)
 	}
 	if env.pkg != nil {
@@ -421,7 +434,7 @@ func (env *Env) evalSel(x *ESel, hint types.Type) Val {
 				if o == nil {
 					// ghost global of that package
 					if g := vc.prog.ghostGlobalIn(x.Name, p.Name()); g != nil {
-						t := env.resolveType(g.Type)
+						t := env.ghostType(g)
 						return vc.readGlobal(env.st, "G:ghost."+g.Pkg+"."+x.Name, t)
 					}
 					efail("%s.%s not found", id.Name, x.Name)
@@ -439,7 +452,7 @@ func (env *Env) selectField(base Val, name string) Val {
 	if ref, S, ok := derefStruct(base); ok {
 		// ghost field?
 		if g := vc.prog.ghostField(structKey(S), name); g != nil {
-			t := env.resolveType(g.Type)
+			t := env.ghostType(g)
 			return vc.readKey(env.st, fieldKey(S, name), t, ref)
 		}
 		var pkg *types.Package
@@ -817,6 +830,24 @@ func (env *Env) evalCall(x *ECall, hint types.Type) Val {
 				efail("entry() only inside loop invariants")
 			}
 			return env.inState(env.entry).eval(x.Args[0], hint)
+		case "athead":
+			// athead(K, e): e in the state in which control last stood at the header of loop K (for a loop left through
+			// its header test this is the state in which the final test was made)
+			if len(x.Args) != 2 {
+				efail("athead(K, e) expects a loop ordinal and an expression")
+			}
+			kl, ok := x.Args[0].(*ELit)
+			if !ok {
+				efail("athead(K, e): K must be a literal loop ordinal")
+			}
+			hs := env.heads[int(litValue(kl).Int64())]
+			if hs == nil && env.headAny != nil {
+				hs = env.headAny(int(litValue(kl).Int64()))
+			}
+			if hs == nil {
+				efail("athead(%s, ...): no such loop (only available in postconditions)", kl.Val)
+			}
+			return env.inState(hs).eval(x.Args[1], hint)
 		case "len", "cap":
 			v := env.eval(x.Args[0], nil)
 			it := types.Typ[types.Int]
@@ -1052,7 +1083,7 @@ func (env *Env) callSpec(sf *SpecFn, args []Expr) Val {
 	pkg := vc.prog.typesPkgByName(sf.Pkg)
 	senv := &Env{vc: vc, pkg: pkg, pkgName: sf.Pkg}
 	if sf.Pred {
-		benv := &Env{vc: vc, st: env.st, old: env.old, entry: env.entry, vars: map[string]Val{}, pkg: pkg, pkgName: sf.Pkg, bound: env.bound}
+		benv := &Env{vc: vc, st: env.st, old: env.old, entry: env.entry, heads: env.heads, headAny: env.headAny, vars: map[string]Val{}, pkg: pkg, pkgName: sf.Pkg, bound: env.bound}
 		for i, p := range sf.Params {
 			pt := senv.resolveType(p.Type)
 			v := env.eval(args[i], pt)
